@@ -81,4 +81,54 @@ theorem callFn_stable (name : String) (args : List (Option String × Thunk))
         | rfl
         | trace_state
 
+/-- a thunk that never evaluates to `return` -/
+def NoRet (t : Thunk) : Prop := ∀ s v, (t s).1 ≠ .ret v
+
+theorem purFn_no_ret (name : String) (args : List (Option Value)) (v : Value) : purFn name args ≠ .ret v := by
+  unfold purFn
+  repeat' split
+  all_goals simp
+
+theorem evalSlots_no_ret : (slots : List (Option Thunk)) → (∀ t, some t ∈ slots → NoRet t) → ∀ s v,
+    (evalSlots slots s).1 ≠ .error (.ret v)
+  | [], _, _, _ => by simp [evalSlots]
+  | none :: rest, h, s, v => by
+    have ih := evalSlots_no_ret rest (fun t ht => h t (List.mem_cons_of_mem _ ht)) s v
+    rw [evalSlots]
+    cases hr : evalSlots rest s with | mk r s1 => rw [hr] at ih; cases r <;> simp_all
+  | some t :: rest, h, s, v => by
+    have h1 := h t List.mem_cons_self s v
+    rw [evalSlots]
+    cases ht : t s with
+    | mk r s1 =>
+      rw [ht] at h1
+      cases r with
+      | ok v1 =>
+        have ih := evalSlots_no_ret rest (fun t ht => h t (List.mem_cons_of_mem _ ht)) s1 v
+        simp only
+        cases hr : evalSlots rest s1 with | mk r2 s2 => rw [hr] at ih; cases r2 <;> simp_all
+      | _ => simp_all
+
+theorem callFn_no_ret (name : String) (args : List (Option String × Thunk))
+    (ha : ∀ k t, (k, t) ∈ args → NoRet t) (s : St) (v : Value) : (callFn name args none s).1 ≠ .ret v := by
+  unfold callFn
+  split
+  · simp
+  · split
+    · simp
+    · rename_i slots hpl
+      have hsl : ∀ t, some t ∈ slots → NoRet t := fun t ht => by
+        obtain ⟨k, hk⟩ := placeArgs_mem _ args slots hpl t ht
+        exact ha k t hk
+      split
+      all_goals first
+        | contradiction
+        | (have := evalSlots_no_ret _ hsl s v
+           cases hr : evalSlots _ s with
+           | mk r s1 =>
+             rw [hr] at this
+             cases r with
+             | ok vals => exact purFn_no_ret _ _ _
+             | error e => simpa using this)
+        | simp
 end Lang
